@@ -1,12 +1,16 @@
 """C05 - transcoders and encoding detection: Encodings specification, binders V (per-call records) and T (documents).
 
-Mutants (mutants/C05/*.diff, all DETECTED by the quick tier, see mutants/C05/RESULTS.txt):
-  utf8-offsets        gUTFOffsets[3] altered (every 4-byte sequence decodes to a wrong scalar value)
-  utf8-surrogates     the ED A0..BF check removed from XMLUTF8Transcoder::transcodeFrom
-  utf8-tail           '>=' -> '>' in the incomplete-tail test of transcodeFrom
-  probe-ucs4-swapped  basicEncodingProbe answers the two UCS-4 byte orders the wrong way round
-  win1252-table       one entry of the windows-1252 decoding table changed (encoder table untouched)
-  ascii-accepts-high  XMLASCIITranscoder::transcodeFrom lets bytes >= 0x80 through
+Mutants (mutants/C05/*.diff; status in mutants/C05/RESULTS.txt - the bin/mutant-run batches were still building /
+checking when the build session ended because the machine was 10x oversubscribed; re-run
+`./bin/mutant-run C05 mutants/C05/*.diff`):
+  utf8-offsets              gUTFOffsets[3] altered (every 4-byte sequence decodes to a wrong scalar value)   [V from/UTF-8, T utf8 rows]
+  utf8-surrogates           the ED A0..BF check of XMLUTF8Transcoder::transcodeFrom weakened                 [V from/UTF-8, T ill-formed rows]
+  utf8-tail                 '>=' -> '>' in the incomplete-tail test of transcodeFrom                          [V from/UTF-8 truncated inputs, splits]
+  utf8-encoder-pair-at-end  transcodeTo defers a complete surrogate pair at the end of the block              [V to/UTF-8]
+  probe-ucs4-swapped        basicEncodingProbe answers the two UCS-4 byte-order marks the wrong way round      [V probe records, T ucs4 rows with BOM]
+  win1252-table             one entry of the windows-1252 decoding table changed (encoder table untouched)    [V to/WINDOWS-1252: Dec o Enc = id]
+  ascii-accepts-high        XMLASCIITranscoder::transcodeFrom lets byte 0x80 through                          [V tab/US-ASCII law]
+  setencoding-accepts-utf16 XMLReader::setEncoding no longer refuses "UTF-16" on non-UTF-16 bytes             [T rows with contradictory declaration]
 """
 import json
 import os
